@@ -347,6 +347,36 @@ fn tuple_fields(d: &mut D, st: &mut Stats) -> String {
 pub fn derive_input(d: &mut D) -> (String, Stats) {
     let mut st = Stats::default();
     let mut s = String::new();
+    if d.ratio(1, 30) {
+        // names a case rule has nothing to work with (only underscores, a non-ASCII first letter), every one of
+        // them behind an explicit `rename`: the rule is never needed for them
+        let rule = *d.pick(&["camelCase", "PascalCase", "snake_case", "SCREAMING_SNAKE_CASE", "kebab-case", "lowercase", "UPPERCASE"]);
+        let awkward: &[&str] = &["__", "____", "\u{e9}t\u{e9}", "_\u{f1}", "\u{3b1}\u{3b2}", "___x"];
+        let n = d.range(1, 3);
+        let mut used: Vec<&str> = vec![];
+        let mut fields = String::new();
+        for k in 0..n {
+            let nm = *d.pick(awkward);
+            if used.contains(&nm) {
+                continue;
+            }
+            used.push(nm);
+            let extra = *d.pick(&["", ", default", ", multiple", ", skip"]);
+            fields.push_str(&format!("#[darling(rename = \"n{}\"{})] {}: {},\n", k, extra, nm, if extra == ", multiple" { "Vec<u8>" } else { "u8" }));
+        }
+        if d.bool() {
+            fields.push_str("plain_one: String,\n");
+        }
+        st.shape = "shielded-awkward-names".into();
+        if d.ratio(2, 3) {
+            s.push_str(&format!("#[darling(rename_all = \"{}\")]\nstruct Rcv {{\n{}}}", rule, fields));
+        } else {
+            st.non_named_shape = true;
+            let vname = *d.pick(&["V", "\u{c9}t\u{e9}", "__"]);
+            s.push_str(&format!("#[darling(rename_all = \"{}\")]\nenum Rcv {{ A, #[darling(rename = \"v\")] {} {{\n{}}} }}", rule, vname, fields));
+        }
+        return (s, st);
+    }
     s.push_str(&attrs(d, Pos::Container, &mut st, 8));
     s.push_str(vis(d));
     let (g, w) = generics(d);
